@@ -384,6 +384,15 @@ func c13CheckMultiVia(t interface{ Fatalf(string, ...any) }, routes []string, si
 			if !strings.Contains(err.Error(), w) {
 				t.Fatalf("%s: call %d: multi Write error %q lacks %s", desc, c, err, w)
 			}
+			mult := 0
+			for _, w2 := range wantErrs {
+				if w2 == w {
+					mult++
+				}
+			}
+			if got := strings.Count(err.Error(), w); got < mult {
+				t.Fatalf("%s: call %d: %d sinks failed with the error text %q, the combined error reports it %d times: %q (all of their errors, one per sink)", desc, c, mult, w, got, err)
+			}
 		}
 		for i, s := range sinks {
 			if len(s.calls) != c+1 {
@@ -413,6 +422,15 @@ func c13CheckMultiVia(t interface{ Fatalf(string, ...any) }, routes []string, si
 			if !strings.Contains(serr.Error(), w) {
 				t.Fatalf("%s: call %d: multi Sync error %q lacks %s", desc, c, serr, w)
 			}
+			mult := 0
+			for _, w2 := range wantSync {
+				if w2 == w {
+					mult++
+				}
+			}
+			if got := strings.Count(serr.Error(), w); got < mult {
+				t.Fatalf("%s: call %d: %d sinks failed Sync with the error text %q, the combined error reports it %d times: %q", desc, c, mult, w, got, serr)
+			}
 		}
 	}
 }
@@ -423,8 +441,13 @@ func propC13Multi(t *rapid.T) {
 	sinks := make([]*c13Sink, k)
 	sig := ""
 	minNotFirst := false
+	// sinks on one full disk report errors with identical texts: they are still one error per sink
+	sameText := rapid.IntRange(0, 3).Draw(t, "sinksReportIdenticalErrorTexts") == 0
 	for i := range sinks {
 		sinks[i] = &c13Sink{name: fmt.Sprintf("s%d", i)}
+		if sameText {
+			sinks[i].name = "disk"
+		}
 		for c := 0; c < calls; c++ {
 			o := c13Outcome{N: rapid.SampledFrom([]int{-1, -1, -1, 0, 1, -2}).Draw(t, "count"), Err: rapid.IntRange(0, 2).Draw(t, "err") == 0, Sync: rapid.IntRange(0, 3).Draw(t, "syncErr") == 0}
 			sinks[i].outs = append(sinks[i].outs, o)
